@@ -2,7 +2,7 @@
    Model: Model/Hybrid.v (one thread step = one tier call; the asynchronous cache write-back is its own thread;
    per-call tier failures), prefix tables regenerated from /repo (Gen/C14.v, GenTables).  `fix_incr`/`fix_setnx`
    = true is the repaired code of fixes/C14-incr.diff, false the pinned code. *)
-From TX Require Import Base.Val Model.Hybrid Proofs.Hybrid Proofs.HybridOne Proofs.SideC14 Gen.C14 Corr.C14.
+From TX Require Import Base.Val Model.Hybrid Model.HybridNodes Proofs.Hybrid Proofs.HybridOne Proofs.SideC14 Gen.C14 Corr.C14.
 
 (* (1) TIER ROUTING, all keys, all schedules, any number of callers, any tier failures (repaired code):
    every tier call ever made for an operation on key k addresses a tier of k's class — the ONE cache tier
@@ -157,6 +157,30 @@ Theorem C14_list_updates_sequential_partial :
           all_cases = true.
 Proof. exact sequential_small_scope_lists. Qed.
 Print Assumptions C14_list_updates_sequential_partial.
+
+(* (5) SEVERAL NODES (Model/HybridNodes.v: private local caches over one persistent tier and one optional shared cache; sequential
+   cross-node histories).  Full statement: once any node's Set / Delete of a cross-node-visible key has returned, a node with a cold
+   local cache reads exactly that value / not found. *)
+Definition C14_cross_node_full_statement : Prop :=
+  forall (c : cfg) (k : kbytes) (m : mworld) (i j : nat) (v : value),
+  cross_visible GenTables c k = true -> length (m_locals m) <= j ->
+  snd (mexec GenTables c (fst (mexec GenTables c m i (OSet k v))) j (OGet k)) = Some (RVal v) /\
+  snd (mexec GenTables c (fst (mexec GenTables c m i (ODel k))) j (OGet k)) = Some RNotFound.
+(* proved in small scope: along EVERY history of <= 4 steps over {node 0, node 1} x {Set v1, Set v2, Delete, Get} and {cold node} x {Get},
+   on a persistent and a shared+persistent key, local or shared cache tier, every Get issued by a cold-cache node, by the latest writer,
+   or by any node when the cache tier is the shared cache, returns the latest completed write *)
+Theorem C14_cross_node_fresh_reads_partial :
+  forallb (fun ck => forallb (fun h => mfresh_ok (fst ck) (snd ck) m_empty h None 9) (mseqs 4 (mstep_alphabet (snd ck)))) all_cases = true.
+Proof. exact cross_node_small_scope. Qed.
+Print Assumptions C14_cross_node_fresh_reads_partial.
+
+(* inherent to node-local caching without invalidation (known finding cross-node-stale-local-cache): node 0 sets v1, node 1 sets v2,
+   node 0 still reads v1 from its private cache while a cold node reads v2 *)
+Theorem C14_cross_node_warm_local_cache_refuted :
+  snd (mexec_seq GenTables cfg_local m_empty [(0, OSet k_user (VStr 1)); (1, OSet k_user (VStr 2)); (0, OGet k_user); (2, OGet k_user)])
+  = [Some ROk; Some ROk; Some (RVal (VStr 1)); Some (RVal (VStr 2))].
+Proof. exact cross_node_warm_local_cache_witness. Qed.
+Print Assumptions C14_cross_node_warm_local_cache_refuted.
 
 (* non-vacuity: concrete callers meet the hypotheses of the single-tier theorem; the witness keys have the classes claimed *)
 Theorem C14_premises_satisfiable :
